@@ -67,6 +67,15 @@ fn parse_cfg<'a>(it: &mut dyn Iterator<Item = &'a str>) -> EngineCfg {
       "hb_timeout_ms" => cfg.heartbeat_timeout = Some(Duration::from_millis(v.parse().unwrap())),
       "maxmsg" => cfg.max_msg_size = v.parse().unwrap(),
       "routing_id" => cfg.routing_id = Some(unhex(v)),
+      "curve_sk" => {
+        // CURVE with the given 32-byte secret key (server role needs nothing else)
+        let b = unhex(v);
+        let mut k32 = [0u8; 32];
+        k32.copy_from_slice(&b[..32]);
+        cfg.use_curve = true;
+        cfg.security_enabled = true;
+        cfg.curve_local_secret_key = Some(k32);
+      }
       _ => panic!("unknown key {}", k),
     }
   }
@@ -217,26 +226,7 @@ fn main() {
       }
       "engine" => {
         let role = it.next().unwrap();
-        let mut cfg = EngineCfg::default();
-        for kv in it {
-          let (k, v) = kv.split_once('=').unwrap();
-          match k {
-            "type" => cfg.socket_type_name = v.to_string(),
-            "plain_user" => {
-              cfg.use_plain = true;
-              cfg.plain_username = Some(String::from_utf8_lossy(&unhex(v)).into_owned())
-            }
-            "plain_pass" => cfg.plain_password = Some(String::from_utf8_lossy(&unhex(v)).into_owned()),
-            "use_plain" => cfg.use_plain = v == "1",
-            "allow_zmtp2" => cfg.allow_zmtp2 = v == "1",
-            "security" => cfg.security_enabled = v == "1",
-            "hb_ivl_ms" => cfg.heartbeat_ivl = Some(Duration::from_millis(v.parse().unwrap())),
-            "hb_timeout_ms" => cfg.heartbeat_timeout = Some(Duration::from_millis(v.parse().unwrap())),
-            "maxmsg" => cfg.max_msg_size = v.parse().unwrap(),
-            "routing_id" => cfg.routing_id = Some(unhex(v)),
-            _ => panic!("unknown key {}", k),
-          }
-        }
+        let cfg = parse_cfg(&mut it);
         eng = Some(new_engine(role == "server", cfg));
         println!("engine ok");
       }
